@@ -192,20 +192,20 @@ def run(run):
     quick = run.tier == "quick"
     texts, checks = [], []
     cid = [0]
-    for _ in range(300 if quick else 6000):
+    for _ in range(600 if quick else 6000):
         t = gen_table(rng, cid)
         texts.append(render_table(t, rng)); checks.append(("table", t))
     info = lib.run_impl("paired_tags", [{}], shards=1)[0]
     tags = [t for t in info.get("tags", []) if t not in INLINE_TAGS_SKIP]
     run.extra["paired_tags_covered"] = tags
     for tag in tags:
-        for _ in range(2 if quick else 12):
+        for _ in range(3 if quick else 12):
             attrs = gen_attrs(rng)
             cid[0] += 1
             inner = rng.choice(CELLS) % cid[0]
             texts.append("<%s%s>%s</%s>" % (tag, (" " + render_attrs(attrs, rng)) if attrs else "", inner, tag))
             checks.append(("html", {"tag": tag, "attrs": attrs, "id": cid[0]}))
-    for _ in range(300 if quick else 5000):
+    for _ in range(500 if quick else 5000):
         args = [rng.choice(["a", "b c", "k=v", " x ", "1=z", "t{{a|y}}", "[[l]]", "", "q r"]) for _ in range(rng.randint(0, 5))]
         kind = rng.choice(["link", "template", "ext"])
         if kind == "link":
@@ -224,7 +224,7 @@ def run(run):
     ext = {"foo": {"parents": ["phrasing"], "content": ["phrasing"]},
            "gadget": {"parents": ["flow"], "content": ["flow"]}}
     etexts, echecks = [], []
-    for _ in range(60 if quick else 1500):
+    for _ in range(150 if quick else 1500):
         attrs = gen_attrs(rng)
         cid[0] += 1
         a = (" " + render_attrs(attrs, rng)) if attrs else ""
